@@ -90,38 +90,52 @@ func read[EntityT entity.Interface](def Definition, wrapper func(e *Entity) Enti
 		return *new(EntityT), err
 	}
 
-	// Perform a breadth-first search to get a topological order of the DAG where we discover the
-	// parents commit and go back in time up to the chronological root
+	// Perform a depth-first search to get a topological order of the DAG where we discover the
+	// parents commit and go back in time up to the chronological root.
+	// A commit is emitted only after all its parents have been (post-order), so whatever the
+	// length of the branches of a merge, ancestors always come first. A breadth-first search
+	// doesn't give that guarantee as soon as two branches have different lengths.
 
-	queue := make([]repository.Hash, 0, 32)
-	visited := make(map[repository.Hash]struct{})
-	BFSOrder := make([]repository.Commit, 0, 32)
-
-	queue = append(queue, rootHash)
-	visited[rootHash] = struct{}{}
-
-	for len(queue) > 0 {
-		// pop
-		hash := queue[0]
-		queue = queue[1:]
-
-		commit, err := repo.ReadCommit(hash)
-		if err != nil {
-			return *new(EntityT), err
-		}
-
-		BFSOrder = append(BFSOrder, commit)
-
-		for _, parent := range commit.Parents {
-			if _, ok := visited[parent]; !ok {
-				queue = append(queue, parent)
-				// mark as visited
-				visited[parent] = struct{}{}
-			}
-		}
+	type frame struct {
+		commit     repository.Commit
+		nextParent int
 	}
 
-	// Now, we can reverse this topological order and read the commits in an order where
+	visited := make(map[repository.Hash]struct{})
+	// topoOrder holds the commits with the chronological root first and every commit after all its parents
+	topoOrder := make([]repository.Commit, 0, 32)
+
+	rootCommit, err := repo.ReadCommit(rootHash)
+	if err != nil {
+		return *new(EntityT), err
+	}
+	visited[rootHash] = struct{}{}
+	stack := []frame{{commit: rootCommit}}
+
+	for len(stack) > 0 {
+		top := &stack[len(stack)-1]
+
+		if top.nextParent < len(top.commit.Parents) {
+			parent := top.commit.Parents[top.nextParent]
+			top.nextParent++
+			if _, ok := visited[parent]; ok {
+				continue
+			}
+			visited[parent] = struct{}{}
+			commit, err := repo.ReadCommit(parent)
+			if err != nil {
+				return *new(EntityT), err
+			}
+			stack = append(stack, frame{commit: commit})
+			continue
+		}
+
+		// all the parents have been emitted
+		topoOrder = append(topoOrder, top.commit)
+		stack = stack[:len(stack)-1]
+	}
+
+	// Now, we can follow this topological order and read the commits in an order where
 	// we are sure to have read all the chronological ancestors when we read a commit.
 
 	// Next step is to:
@@ -131,9 +145,8 @@ func read[EntityT entity.Interface](def Definition, wrapper func(e *Entity) Enti
 	oppMap := make(map[repository.Hash]*operationPack)
 	var opsCount int
 
-	for i := len(BFSOrder) - 1; i >= 0; i-- {
-		commit := BFSOrder[i]
-		isFirstCommit := i == len(BFSOrder)-1
+	for i, commit := range topoOrder {
+		isFirstCommit := i == 0
 		isMerge := len(commit.Parents) > 1
 
 		// Verify DAG structure: single chronological root, so only the root
